@@ -587,7 +587,21 @@ impl<'a> Gen<'a> {
         // step names: distinct, free of glob metacharacters, otherwise anything a file name may hold
         // (dots, spaces, non-ASCII letters, a leading dot) - they become parts of file and directory names
         let step_names: Vec<String> = (0..nsteps)
-            .map(|i| match self.r.below(10) {
+            .map(|i| match self.r.below(if depth == 0 { 32 } else { 10 }) {
+                // (names that hold pattern syntax of the glob crate: the evidence of a step is looked up
+                // with `glob("<dir>/<name>.????????.link")`, which reads such a name as a pattern - one that
+                // still matches its own spelling (`*`, `?`), one that never does (`[x]`), one that is
+                // rejected (`[`, `**` inside a component); innermost layouts only, and mostly the
+                // satisfiable kind, so that the fault catalogue keeps most of its scenarios)
+                10 | 11 => format!("s{}*", i),
+                12 | 13 => format!("s{}?", i),
+                14 => format!("*{}", i),
+                15 => format!("s{}]", i),
+                16 => match self.r.below(3) {
+                    0 => format!("s{}[x]", i),
+                    1 => format!("s{}[", i),
+                    _ => format!("s**{}", i),
+                },
                 0 => format!("s{}.x86", i),
                 1 => format!("s{}.tar.gz", i),
                 2 => format!(".s{}", i),
